@@ -13,6 +13,7 @@ from ..ref import codec, layout
 ID = "C12"
 TITLE = "Constants are always compliant with their declared type"
 RULE = (
+    "(Values are also spelled as expressions of the same exact rational: p * b ** -k, decimal point forms, x + 0, 2 * (x) / 2 ...; boundaries +- 10**-400 / 2**-1075; part references: a later constant initialised through an earlier one - A, A + 1, A / 2, !A, A == literal - must comply with its own type for the stored value of A.)  "
     "Grid (enumerated completely): all 198 constant-capable types (bool; uint1..64 saturated/truncated; int2..64; float16/32/64 "
     "saturated/truncated) x {min-1, min, min+1, -1, 0, 1, max-1, max, max+1, min-1/2, max+1/2, max+1/1000, 1/2, 'a', '', 'ab', "
     "non-ASCII char, true, {1}} (floats: +-max, +-max*(1+2**-60), +-(max+1), 0, 1/3, 'a', true), each through DSDL text and through "
